@@ -434,7 +434,7 @@ func scenarios(tier string) []sched.Scenario {
 			dev int
 		}
 		for _, x := range vs {
-			if x.v.sameKey {
+			if x.v.sameKey || x.v.cancel {
 				f = append(f, x)
 			}
 		}
@@ -463,6 +463,15 @@ func scenarios(tier string) []sched.Scenario {
 		sched.Scenario{Name: "follower-3appends-commit-lagging", Cfg: cfg(), MaxDev: fd, Body: followerBody(3, -1, true)},
 		sched.Scenario{Name: "follower-2appends-commit-ahead", Cfg: cfg(), MaxDev: fd + 1, Body: followerBody(2, 2, true)})
 	return out
+}
+
+// ScenariosFor returns the colliding-writers scenarios of the leader write pipeline for use inside another
+// suite; only the failure keys in keep count.
+func ScenariosFor(tier string, keep map[string]bool) []sched.Scenario {
+	keepKeys = keep
+	onlySameKey = true
+	withFollower = false
+	return scenarios(tier)
 }
 
 // Main runs the suite for a property. keep selects the failure keys that count for that
@@ -495,7 +504,9 @@ var keepKeys map[string]bool
 // withFollower adds the follower apply-loop scenarios (they belong to C07, not to C08)
 var withFollower bool
 
-// onlySameKey restricts the suite to the colliding-writers variants (schedule stage of C02)
+// onlySameKey restricts the suite to the colliding-writers variants and the abandoned-write variant (schedule
+// stages of C02 and C06: what the leader serves must be the fold of its committed log, also for a write whose
+// client stopped waiting)
 var onlySameKey bool
 
 // fail reports a failure unless the property being decided does not include that key.
